@@ -318,8 +318,9 @@ def auto_discharge(e, pv):
                 return ('const-arith', 'constant operands %s: result %d fits %s' % (vals, r(*vals), ty))
         if m.startswith('Overflow(Add)') and len(ops) == 2 and const_int(ops[1]) == 1:
             ty = operand_type(b, ops[0])
-            if ty in ('usize', 'u64'):
-                return ('usize-counter', '%s counter + 1 cannot overflow before memory/time is exhausted' % ty)
+            derived_by_cast = any(F.term_contains(x, lambda y: y[0] == 'cast') for x in pv.of_operand(ops[0]))
+            if ty in ('usize', 'u64') and not derived_by_cast:
+                return ('usize-counter', '%s counter + 1 (not derived from a cast) cannot overflow before memory/time is exhausted' % ty)
         if m in ('DivisionByZero', 'RemainderByZero'):
             # the assert operand is the dividend; the divisor is the left operand of the `== 0` test feeding the condition
             cl = F.op_local(t['cond'])
